@@ -496,6 +496,8 @@ static void prog_adopt(int nworkers) {
   vf_sched_go();
   vf_wait_all();
   op_checkall();
+  /* a forced collect of the main thread adopts abandoned segments wholesale (mi_collect(true) -> _mi_abandoned_reclaim_all) */
+  if (vf_randn(2)) do_collect(1);
   int order = (int)vf_randn(2);
   for (int ph = 0; ph < 2; ph++) { int bound = (ph ^ order); if (!bound || hb >= 0) adopt_phase(bound, hb); }
   for (int s = 0; s < MAXSLOTS; s++) if (slots[s].p) op_free_slot(s, FR_free);
